@@ -1,7 +1,7 @@
 //! C03 (serialisability), C04 (no lost updates), C24 (index coverage under races).
 //!
 //! Concurrency is produced deterministically: a step marked `stale` runs on a
-//! handle checked out at one of the last three versions with lance's own
+//! handle checked out at one of the last four versions with lance's own
 //! retries off, i.e. the transaction is *executed at r* and *committed now*.
 //! A run of consecutive stale steps is a batch of concurrent transactions
 //! committed in the generated order.
@@ -114,7 +114,7 @@ pub async fn run(mode: Mode, input: &Input, obs: &mut Obs, env: &Env) -> CheckRe
                 mine.extend(e.update.keys().copied());
                 if was_rebased {
                     rebased += 1;
-                    // the read version: the engine picked it among the last 3 known versions
+                    // the read version: the engine picked it among the last 4 known versions
                     let lo = known_before.len().saturating_sub(3);
                     let read = known_before[lo + idx(step.stale.unwrap_or(0), known_before.len() - lo)];
                     // C04: no committed transaction since `read` touched a row this one touches
@@ -188,7 +188,7 @@ impl Property for C03 {
         "C03"
     }
     fn rule(&self) -> String {
-        "Histories of 1-9 ops from the full op set (append, overwrite, delete, update, merge_insert, compaction with/without deferred remap, index create/drop/optimize, add/drop/alter column, config update, restore, tags) where 55% of the steps run on a stale handle (read version among the last three) with retries off: the transaction is executed at r and committed after the transactions published since r. Oracle: model-based serial replay - a transaction that returns Ok must leave exactly (effect computed on the model at r) applied on top of the model's latest state (multiset by uid over all columns, schema, config), indexed and un-indexed scans agree; one that returns Err must leave the latest version's contents unchanged; two committed concurrent transactions never both modify the same row. Non-trivial = >=1 transaction committed with r < latest (a real rebase); distinct by op-kind sequence + (op, distance to read version) of the rebased commits.".into()
+        "Histories of 1-9 ops from the full op set (append, overwrite, delete, update, merge_insert, compaction with/without deferred remap, index create/drop/optimize, add/drop/alter column, config update, restore, tags) where 55% of the steps run on a stale handle (read version among the last four) with retries off: the transaction is executed at r and committed after the transactions published since r. Oracle: model-based serial replay - a transaction that returns Ok must leave exactly (effect computed on the model at r) applied on top of the model's latest state (multiset by uid over all columns, schema, config), indexed and un-indexed scans agree; one that returns Err must leave the latest version's contents unchanged; two committed concurrent transactions never both modify the same row. Non-trivial = >=1 transaction committed with r < latest (a real rebase); distinct by op-kind sequence + (op, distance to read version) of the rebased commits.".into()
     }
     fn assumptions(&self) -> Vec<String> {
         vec![
